@@ -2930,6 +2930,10 @@ class Set(Collection):
                 arguments = adapter(items)
                 cursor = database._exec_sql(sql, arguments)
                 items = rentity._fetch_objects(cursor, attr_offsets)
+                if reverse.lazy:
+                    # the batch load does not fetch a lazy reference: the membership of the item stays unknown
+                    for item in items:
+                        if reverse not in item._vals_: reverse.load(item)
                 return setdata
 
             sql, adapter = attr.construct_sql_m2m(1, len(items))
@@ -3385,7 +3389,7 @@ class SetInstance(object):
                 where_list.append([ converter.EQ, [ 'COLUMN', None, column ], [ 'PARAM', (i, None, None), converter ] ])
             if not reverse.is_collection:
                 table_name = rentity._table_
-                select_list, attr_offsets = rentity._construct_select_clause_()
+                select_list, attr_offsets = rentity._construct_select_clause_(query_attrs=(reverse,))
             else:
                 table_name = attr.table
                 # for a symmetric attribute reverse.columns is attr.columns: select the opposite columns,
